@@ -164,11 +164,80 @@ def run_case(ctx, c):
         live.close()
 
 
+DECL_SRC = '''
+from bisturi.packet import Packet
+from bisturi.field import Int, Data, Ref
+class Sub(Packet):
+    size = Int(1, default=16)
+    tags = Int(1).repeated(2, default=[1, 2])
+PROTO = Sub(size=17)
+LST = [Sub(size=3), Sub()]
+OPTD = Sub(size=5)
+class Msg(Packet):
+    k = Int(1)
+    body = Ref(PROTO)
+    items = Ref(Sub).repeated(2, default=LST)
+    extra = Ref(Sub).when(k, default=OPTD)
+    sel = Ref(k.chooses({0: Int(1), 1: Sub()}), default=OPTD)
+def local():
+    class LSub(Packet):
+        size = Int(1, default=16)
+        tags = Int(1).repeated(2, default=[1, 2])
+    proto = LSub(size=17)
+    lst = [LSub(size=3), LSub()]
+    optd = LSub(size=5)
+    class LMsg(Packet):
+        k = Int(1)
+        body = Ref(proto)
+        items = Ref(LSub).repeated(2, default=lst)
+        extra = Ref(LSub).when(k, default=optd)
+        sel = Ref(k.chooses({0: Int(1), 1: LSub()}), default=optd)
+    return LMsg, proto, lst, optd
+'''
+
+
+def check_declaration_objects(ctx):
+    """the objects given in a declaration (prototype instances, default lists, default packets) are snapshots: changing them after
+    the class exists must not change what a default-constructed packet holds - for module-level classes and for classes declared
+    inside a function (their instances cannot be pickled, which selects another cloning path)"""
+    L = observe.load_source(DECL_SRC, {"pkts": []})
+    try:
+        m = L.module
+        for label, (cls, proto, lst, optd) in (("module-level", (m.Msg, m.PROTO, m.LST, m.OPTD)), ("function-local", m.local())):
+            # asserted for the reference PROTOTYPE only ("a fresh copy of the prototype for references"); whether a list / optional
+            # default given by the user is snapshotted at declaration time is not stated anywhere, so it is not asserted
+            def snap():
+                p = cls()
+                return (p.body.size, list(p.body.tags))
+            want = (17, [1, 2])
+            ctx.ev()
+            first = snap()
+            if first != want:
+                ctx.violation({"sig": "declared-defaults-differ", "desc": "%s: default packet holds %r, declaration says %r" % (label, first, want), "source": DECL_SRC, "kind": "declaration-objects"})
+            proto.size = 99; proto.tags.append(7)
+            lst[0].size = 98; lst.append(proto); lst[1].tags[0] = 55
+            optd.size = 97; optd.tags.pop()
+            ctx.ev()
+            after = snap()
+            if after != want:
+                ctx.violation({"sig": "declaration-object-mutation-leaks", "desc": "%s: after mutating the objects given in the declaration a default packet holds %r, expected %r" % (
+                    label, after, want), "source": DECL_SRC, "kind": "declaration-objects"})
+            ctx.nt(("declaration-objects", label))
+    finally:
+        L.unload()
+
+
 def run_shard(shard, ctx):
+    if shard["k"] % 8 == 0:
+        check_declaration_objects(ctx)
     run_given(ctx, cases(), lambda c: run_case(ctx, c), 300 if ctx.tier == "quick" else 3000)
 
 
 def replay(case, ctx):
+    if case.get("kind") == "declaration-objects":
+        check_declaration_objects(ctx)
+        ctx.nt("r1"); ctx.nt("r2")
+        return
     fam, cg = case["fam"], case.get("cg") or {}
     live = decl.open_live(ctx, fam, cg)
     if live is None:
